@@ -94,6 +94,10 @@ def run(rep, idx, tier):
     t_prev = c.parse("wb.dat_r[slice((k - 1) * g, k * g)]", env)
     t_last = c.norm(c.parse("wb.dat_r[slice(last * g, (last + 1) * g)]", dict(env, last=('last', k))))
     seen_prev = seen_last = False
+    foreign = False
+
+    def _switch_id(fr):
+        return fr[1]
     for dom, t, dsx in lanes:
         if dom != "sync":
             rep.bad("C10.2", site, f"{ir.show(t)}", "read data lanes must be registered (CSR read data arrives one cycle after its strobe)")
@@ -104,14 +108,27 @@ def run(rep, idx, tier):
                      [(('formula', dl.f_and(Tf, case_k[1], c.eng.cond(c.parse("k > 0", env)))), "csr.r_data")], env)
         elif t == t_last:
             seen_last = True
-            check_dl(rep, "C10.2", c, "last lane registers csr.r_data in the final state", dsx, dl.HOLD,
-                     [(under(dflt), "csr.r_data")], env)
+            if any(fr[0] in ('case', 'default') and _switch_id(fr) != sid for d_ in dsx for fr in d_.dsl):
+                foreign = True
+                rep.unk("C10.2", site, "last lane registers csr.r_data in the final state", "the last lane is written under another Switch than the "
+                        "sequencer's; whether its Default is the sequencer's final state is not derived")
+            else:
+                check_dl(rep, "C10.2", c, "last lane registers csr.r_data in the final state", dsx, dl.HOLD,
+                         [(under(dflt), "csr.r_data")], env)
         else:
-            rep.bad("C10.2", site, ir.show(t), "read data is registered into a lane that is neither lane k-1 in state k nor the last lane "
-                    "in the final state", lines=[d.lineno for d in dsx])
-    if not seen_prev:
+            other_loops = {x[1] for x in ir.walk(t) if x[0] == 'idx'} - {k[1] if k[0] == 'idx' else None}
+            foreign = foreign or bool(other_loops) or any(fr[0] == 'case' and _switch_id(fr) != sid for d_ in dsx for fr in d_.dsl)
+            if other_loops or any(fr[0] == 'case' and _switch_id(fr) != sid for d_ in dsx for fr in d_.dsl):
+                # the lanes are collected by a loop / Switch of their own (lane j under Case(j + 1) ...): the pairing of states and
+                # lanes is written in another index, which the template does not re-derive
+                rep.unk("C10.2", site, ir.show(t)[:90], "read data lanes are written in a separate loop or Switch; the pairing state k -> lane k-1 "
+                        "is not derived for that shape")
+            else:
+                rep.bad("C10.2", site, ir.show(t), "read data is registered into a lane that is neither lane k-1 in state k nor the last lane "
+                        "in the final state", lines=[d.lineno for d in dsx])
+    if not seen_prev and not foreign:
         rep.bad("C10.2", site, "lane k-1 <= csr.r_data in state k", "no such driver: granule k's read data would land in the wrong lane or be lost")
-    if not seen_last:
+    if not seen_last and not foreign:
         rep.bad("C10.2", site, "last lane <= csr.r_data in the final state", "no such driver")
     if c.drivers_of(c.parse("wb.dat_r", env)):
         rep.unk("C10.2", site, "wb.dat_r", "read data is also driven as a whole")
